@@ -97,7 +97,12 @@ def setup(case, sim=None):
     for a, v in case["pokes"].items():
         poke(sim, int(a), v)
     sim.state.accu = UInt16(case["acc"])
-    if "w0" in case:
+    if "img" in case:
+        # assembled from a generated source: the reference image is the AST's image, the end of the program the AST's
+        mem = {int(a): v for a, v in case["img"].items()}
+        mem.update({int(a): v for a, v in case["pokes"].items()})
+        maxpc = case["maxpc"]
+    elif "w0" in case:
         mem = {0: case["w0"]}
         mem.update({i: 0xC000 for i in range(1, case["L"])})
         mem.update({int(a): v for a, v in case["pokes"].items()})
@@ -585,8 +590,19 @@ def run_shard(spec, res):
         from architecture_simulator.simulation.toy_simulation import ToySimulation
 
         reused = ToySimulation()
+        # another simulation with a non-default memory size lives in the same process (the machine under test
+        # keeps its documented 4096 words)
+        other = ToySimulation(rng.choice([32, 48, 100]))
+        other.load_program(gen_source(rng, 32)["text"])
+        res.count("other_sized_simulation_in_process")
         for it in range(spec["n"]):
             case = gen_selfmod_case(rng) if rng.random() < 0.3 else gen_prog_case(rng)
+            if rng.random() < 0.25:
+                # whole sources (stand-alone / in-line labels, comments, data before or after the text) executed:
+                # "execution stops exactly when the program counter passes the last assembled instruction"
+                src = gen_source(rng)
+                case = {"kind": "exec", "text": src["text"], "pokes": {}, "acc": rng.choice([0, 1, 0xFFFF, rng.getrandbits(16)]), "max_steps": 150, "img": src["image"], "maxpc": src["max_pc"]}
+                res.count("assembled_sources_executed")
             if it % 4 == 0:
                 guarded(run_case, prop, case, res)
             else:
